@@ -10,12 +10,12 @@ pub enum Op { Add, Sub, Mul, Div, Rem }
 pub open spec fn trunc_div(x: int, y: int) -> int
     recommends y != 0
 {
-    if x >= 0 { x / y } else { -((-x) / y) }
+    if x == 0 { 0 } else if x > 0 { x / y } else { -((-x) / y) }
 }
 pub open spec fn trunc_rem(x: int, y: int) -> int
     recommends y != 0
 {
-    if x >= 0 { x % y } else { -((-x) % y) }
+    if x == 0 { 0 } else if x > 0 { x % y } else { -((-x) % y) }
 }
 
 pub open spec fn abs_int(x: int) -> int { if x >= 0 { x } else { -x } }
@@ -25,10 +25,14 @@ proof fn lemma_euclid_bound(x: int, y: int) requires x >= 0, y != 0 ensures -x <
     assert(0 <= x % y) by (nonlinear_arith) requires x >= 0, y != 0;
     assert(x % y <= x) by (nonlinear_arith) requires x >= 0, y != 0;
 }
+pub proof fn lemma_zero_div(y: int) requires y != 0 ensures 0int / y == 0, 0int % y == 0
+{
+    assert(0int / y == 0 && 0int % y == 0) by (nonlinear_arith) requires y != 0;
+}
 /// |x / y| <= |x| and |x % y| <= |x|: a quotient or remainder of representable operands overflows only for MIN / -1
 pub proof fn lemma_trunc_bound(x: int, y: int) requires y != 0 ensures -abs_int(x) <= trunc_div(x, y) <= abs_int(x), -abs_int(x) <= trunc_rem(x, y) <= abs_int(x)
 {
-    if x >= 0 { lemma_euclid_bound(x, y); } else { lemma_euclid_bound(-x, y); }
+    if x > 0 { lemma_euclid_bound(x, y); } else if x < 0 { lemma_euclid_bound(-x, y); }
 }
 
 /// the exact mathematical result, None where mathematics has none (zero divisor)
@@ -173,18 +177,6 @@ FLOAT_RW = {
 }
 R2F = 'R2: f64 operator -> external trampoline (Verus has no usable f64 operator spec); IEEE behaviour checked by Kani'
 
-ERR_PROP = A(
-    ret='r',
-    requires=[('closure_pre', '!(self is Err) && !(rhs is Err) ==> f.requires((self, rhs))')],
-    ensures=[
-        ('left_error_wins', 'self is Err ==> r == self'),
-        ('right_error', '!(self is Err) && rhs is Err ==> r == rhs'),
-        ('otherwise_f', '!(self is Err) && !(rhs is Err) ==> f.ensures((self, rhs), r)'),
-    ],
-    props=('C03', 'C01', 'C04', 'C05', 'C06'),
-)
-
-
 ADD_OTHER = [
     ('concat_string', 'pair_is({a}, {b}, 1, 1) ==> {r} is String && {r}->String_0@ == {a}->String_0@ + {b}->String_0@', ('C06', 'C01')),
     ('concat_bytes', 'pair_is({a}, {b}, 2, 2) ==> {r} is Bytes && {r}->Bytes_0@ == {a}->Bytes_0@ + {b}->Bytes_0@', ('C06', 'C01')),
@@ -230,7 +222,7 @@ def binop(op, name, other):
         closures={0: dict(types=['CelValue', 'CelValue'], ret='res: CelValue',
                           requires=[('operands_not_err', '!(lhs_val is Err) && !(rhs_val is Err)')],
                           ensures=clauses('lhs_val', 'rhs_val', 'res'),
-                          body_begin=('proof { if int_val(rhs_val) != 0 { lemma_trunc_bound(int_val(lhs_val), int_val(rhs_val)); } }' if name in ('div', 'rem') else None))},
+                          body_begin=('proof { if int_val(rhs_val) != 0 { lemma_trunc_bound(int_val(lhs_val), int_val(rhs_val)); lemma_zero_div(int_val(rhs_val)); } }' if name in ('div', 'rem') else None))},
         arm_rewrites=arm_rw,
         props=('C03', 'C01') + (('C16', 'C06') if name == 'add' else ()) + (('C16',) if name == 'sub' else ()),
     )
@@ -248,6 +240,7 @@ def build():
     U.raw(OPSPEC, 'operator trait plumbing')
     U.raw(CHRONO, 'assumed chrono / float specs')
     U.raw(C.STD_SPECS, 'assumed std specs')
+    U.raw(C.AXIOMS, 'axioms')
 
     simple_ctor = lambda body: A(ret='r', ensures=[('def', body)], props=('C01',))
     U.extract(C.CE, 'impl CelError', fns={
@@ -260,13 +253,6 @@ def build():
     })
     U.raw(r'''
 impl View for CelBytes { type V = Seq<u8>; closed spec fn view(&self) -> Seq<u8> { self.inner@ } }
-// the sequence an IntoIterator<Item = u8> yields; assumed for Vec<u8>: its elements in order
-pub mod ax { use super::*; use vstd::prelude::*;
-pub uninterp spec fn into_iter_seq<T>(t: T) -> Seq<u8>;
-pub broadcast axiom fn axiom_vec_into_iter_seq(v: Vec<u8>) ensures #[trigger] into_iter_seq::<Vec<u8>>(v) == v@;
-}
-pub use ax::into_iter_seq;
-broadcast use ax::axiom_vec_into_iter_seq;
 ''', 'views')
     U.extract(C.CV, 'impl CelValue', fns={
         'from_int': simple_ctor('r == CelValue::Int(val)'),
@@ -279,20 +265,8 @@ broadcast use ax::axiom_vec_into_iter_seq;
         'from_duration': simple_ctor('r == CelValue::Duration(val)'),
         'from_err': simple_ctor('r == CelValue::Err(val)'),
         'is_err': A(ret='r', ensures=[('def', 'r == (self is Err)')], props=('C01', 'C03')),
-        'type_prop': A(ret='r', ensures=[
-            ('kinds_int_uint', 'nkind(lhs) is I && nkind(rhs) is U && i64_ok(int_val(rhs)) ==> r.0 == lhs && r.1 == CelValue::Int(int_val(rhs) as i64)'),
-            ('kinds_uint_int', 'nkind(lhs) is U && nkind(rhs) is I && i64_ok(int_val(lhs)) ==> r.1 == rhs && r.0 == CelValue::Int(int_val(lhs) as i64)'),
-            ('unrepresentable_uint_kept', '((nkind(lhs) is I && nkind(rhs) is U) || (nkind(lhs) is U && nkind(rhs) is I)) && !(i64_ok(int_val(lhs)) && i64_ok(int_val(rhs))) ==> r.0 == lhs && r.1 == rhs'),
-            ('bool_counts_as_0_1', 'nkind(lhs) is I && nkind(rhs) is B ==> r.0 == lhs && r.1 == CelValue::Int(int_val(rhs) as i64)'),
-            ('bool_counts_as_0_1_u', 'nkind(lhs) is U && nkind(rhs) is B ==> r.0 == lhs && r.1 == CelValue::UInt(int_val(rhs) as u64)'),
-            ('bool_lhs_int', 'nkind(lhs) is B && nkind(rhs) is I ==> r.1 == rhs && r.0 == CelValue::Int(int_val(lhs) as i64)'),
-            ('bool_lhs_uint', 'nkind(lhs) is B && nkind(rhs) is U ==> r.1 == rhs && r.0 == CelValue::UInt(int_val(lhs) as u64)'),
-            ('same_kind_untouched', '(nkind(lhs) == nkind(rhs) || nkind(lhs) is Other || nkind(rhs) is Other) ==> r.0 == lhs && r.1 == rhs'),
-            ('double_wins', '(nkind(lhs) is F && !(nkind(rhs) is Other)) || (nkind(rhs) is F && !(nkind(lhs) is Other)) ==> r.0 is Float && r.1 is Float'),
-            ('double_operand_kept_l', 'nkind(lhs) is F ==> r.0 == lhs'),
-            ('double_operand_kept_r', 'nkind(rhs) is F ==> r.1 == rhs'),
-        ], props=('C03', 'C04', 'C01')),
-        'error_prop_or': ERR_PROP,
+        'type_prop': C.type_prop_contract(),
+        'error_prop_or': C.err_prop_contract(),
     })
     U.extract(C.CV, 'impl From<i64> for CelValue', fns={'from': simple_ctor('r == CelValue::Int(val)')})
     U.extract(C.CV, 'impl From<u64> for CelValue', fns={'from': simple_ctor('r == CelValue::UInt(val)')})
